@@ -56,9 +56,24 @@ def realise(case, names):
     return store, qs
 
 
-def driver_query(q):
+def split_entries(mn):
+    """the same requirement stated with a class named twice (n = n // 2 + the rest), the halves apart in the list: an
+    asset list is read as the sum of its entries"""
+    first, rest = [], []
+    for e in mn:
+        n = int(e["n"]["I"])
+        if n >= 2:
+            first.append({"c": e["c"], "n": I(n // 2)})
+            rest.append({"c": e["c"], "n": I(n - n // 2)})
+        else:
+            first.append(e)
+    return first + rest
+
+
+def driver_query(q, split=False):
+    mn = q["min"] if q["has_min"] else None
     d = {"name": q["name"], "address": None if q["address"] == NOADDR else q["address"], "refs": q["refs"],
-         "min": q["min"] if q["has_min"] else None, "many": q["many"], "collateral": q["collateral"]}
+         "min": split_entries(mn) if (split and mn) else mn, "many": q["many"], "collateral": q["collateral"]}
     return d
 
 
@@ -142,10 +157,12 @@ def random_case(rng, big):
     return store, qs
 
 
-def run_cases(cases, tag, repeat, end_to_end, nproc):
+def run_cases(cases, tag, repeat, end_to_end, nproc, split=None):
     jobs = []
     for i, (store, qs) in enumerate(cases):
-        jobs.append({"id": i, "cmd": "select", "store": store, "queries": [driver_query(q) for q in qs],
+        # (every third case states its thresholds with each class named twice)
+        sp = (i % 3 == 2) if split is None else split
+        jobs.append({"id": i, "cmd": "select", "store": store, "queries": [driver_query(q, split=sp) for q in qs],
                      "repeat": repeat, "end_to_end": end_to_end,
                      "cfg": {"network": 0, "a": 44, "b": 155381, "cpb": 4310, "cost_models": "all"}})
     results = core.run_driver(jobs)
@@ -191,7 +208,8 @@ def collect(rep, tr, cases, reasons):
             continue
         store, qs = cases[b["case"]]
         rep.violation(sig_of(b), f"{b['why']} {b['detail']}",
-                      {"cmd": "select", "store": store, "queries": qs, "why": b["why"], "detail": b["detail"]})
+                      {"cmd": "select", "store": store, "queries": qs, "split_thresholds": b["case"] % 3 == 2,
+                       "why": b["why"], "detail": b["detail"]})
 
 
 def check_c03(tier, seed):
@@ -257,6 +275,29 @@ def check_c03(tier, seed):
     return rep.finish()
 
 
+def pinned_cases(names):
+    """blocks that name their UTxO by reference and say nothing else (no address, no threshold), two or three of them,
+    pinned to the same UTxO or to different ones, alone or next to an open block that could take the pinned UTxO; kept
+    whatever the sampling of the enumerated cases keeps"""
+    import itertools
+    out = []
+    utxo = lambda a, n: {"addr": a, "assets": {"L": n}}  # noqa
+    stores = [{"r1": utxo("A", 5)}, {"r1": utxo("A", 5), "r2": utxo("A", 7)}, {"r1": utxo("A", 5), "r2": utxo("B", 5), "r3": utxo("A", 9)}]
+    pin = lambda r, many=False: {"address": "none", "refs": [r], "min": [], "many": many, "collateral": False}  # noqa
+    opn = lambda a, n, many=False: {"address": a, "refs": [], "min": {"L": n}, "many": many, "collateral": False}  # noqa
+    for st in stores:
+        rs = sorted(st)
+        for a, b in itertools.product(rs, rs):
+            out.append({"store": st, "queries": [pin(a), pin(b)]})
+            out.append({"store": st, "queries": [pin(a, True), pin(b)]})
+            out.append({"store": st, "queries": [pin(a), opn("A", 1), pin(b)]})
+            out.append({"store": st, "queries": [opn("A", 1, True), pin(a), pin(b)]})
+        for a in rs:
+            out.append({"store": st, "queries": [pin(a), dict(pin(a), collateral=True)]})
+            out.append({"store": st, "queries": [{"address": "A", "refs": [a], "min": [], "many": False, "collateral": False}, pin(a)]})
+    return [realise(c, names) for c in out if usable(realise(c, names)[1])]
+
+
 def check_c04(tier, seed):
     rep = core.Report("C04", tier, seed)
     rep.rule = ("a case is a store and k overlapping input blocks (same party, same assets, overlapping refs, single/many "
@@ -299,6 +340,8 @@ def check_c04(tier, seed):
         rng.shuffle(between)
         rep.extra["three_block_cases_with_collateral_between"] = min(len(between), 15000)
         cases += between[:15000]
+    pinned = pinned_cases(names3)
+    rep.extra["pinned_block_cases"] = len(pinned)
     rep.exhaustive = True
     if len(cases) > (75000 if quick else 300000):
         rng.shuffle(cases)
@@ -312,7 +355,7 @@ def check_c04(tier, seed):
         c = random_case(rng, big=rng.random() < 0.2)
         if usable(c[1]) and len(c[1]) >= 2:
             rcases.append(c)
-    allc = cases + rcases
+    allc = cases + rcases + pinned
     tr, evs = run_cases(allc, "c04", 1, True, 8 if quick else 12)
     rep.add_trace(tr)
     rep.extra["outcomes"] = tr.kinds
@@ -351,6 +394,6 @@ def canary(rep, evs, tag):
 def replay(doc):
     core.build_driver()
     r = doc["replay"]
-    tr, evs = run_cases([(r["store"], r["queries"])], "sel_replay", 3, doc["property"] == "C04", 1)
+    tr, evs = run_cases([(r["store"], r["queries"])], "sel_replay", 3, doc["property"] == "C04", 1, split=bool(r.get("split_thresholds")))
     print(core.json.dumps({"events": evs[0], "bad": tr.bad}, indent=1)[:30000])
     return 1 if tr.bad else 0
